@@ -76,8 +76,26 @@ def corrupt(rng, xml_text):
         if not roots or (kind == "base_cycle" and not kids):
             return None
         r = roots[0]
+        target = r.get("name")
+        if kind == "base_cycle":
+            # a cycle needs a container that (transitively) inherits from the chosen root
+            base_of = {c.get("name"): c.find(q("BaseContainer")).get("containerRef") for c in kids}
+
+            def descends(name, root_name):
+                seen = set()
+                while name in base_of and name not in seen:
+                    seen.add(name)
+                    name = base_of[name]
+                    if name == root_name:
+                        return True
+                return False
+            pairs = [(rt, c) for rt in roots for c in kids if descends(c.get("name"), rt.get("name"))]
+            if not pairs:
+                return None
+            r, kid = rng.choice(pairs)
+            target = kid.get("name")
         b = ET.SubElement(r, q("BaseContainer"))
-        b.set("containerRef", r.get("name") if kind == "self_base" else rng.choice(kids).get("name"))
+        b.set("containerRef", target)
         rc = ET.SubElement(b, q("RestrictionCriteria"))
         cmp_ = ET.SubElement(rc, q("Comparison"))
         cmp_.set("parameterRef", "PKT_APID")
